@@ -273,11 +273,34 @@ type KAlphabet struct {
 	Ticks    []int
 	Full     bool // F2 and N-sessions get the complete menu
 	OneParty bool // only partition A is encrypted/decrypted by F1 (B only through F2) - used by the fastest tier
+	// Narrow: one long-lived session of partition A (encrypt, decrypt newest / oldest), per-request encrypts of partition B
+	// (they age the system key relative to A's intermediate key), clock ticks and revocations: a small menu for deep histories.
+	Narrow bool
 }
 
 // enabled lists the operations applicable in the current state, simplest first.
 func (w *kWorld) enabled(a KAlphabet) []string {
 	var ops []string
+	if a.Narrow {
+		ops = append(ops, "enc:1:L:A")
+		if len(w.recs["A"]) > 0 {
+			ops = append(ops, "dec:1:L:A:new")
+			if w.recs["A"][0].IKCreated != w.recs["A"][len(w.recs["A"])-1].IKCreated {
+				ops = append(ops, "dec:1:L:A:old")
+			}
+		}
+		for _, t := range a.Ticks {
+			ops = append(ops, fmt.Sprintf("tick:%d", t))
+		}
+		ops = append(ops, "enc:1:N:B")
+		if r := w.ms.Latest(ref.IntermediateKeyID("A", "s", "p", "")); r != nil && !r.Rec.Revoked {
+			ops = append(ops, "revIK:A")
+		}
+		if r := w.ms.Latest(ref.SystemKeyID("s", "p", "")); r != nil && !r.Rec.Revoked {
+			ops = append(ops, "revSK")
+		}
+		return ops
+	}
 	for _, p := range w.parts {
 		ops = append(ops, "enc:1:L:"+p)
 	}
